@@ -375,7 +375,9 @@ impl<M: AlignMarker> Ctx<M> {
                     } else {
                         if af.epoch_word != bf.epoch_word && o.k == K::Reactivate {
                             let det = format!("reactivate on a non-sole guard of t{} changed its announced epoch word {:#x} -> {:#x}", tid, bf.epoch_word, af.epoch_word);
-                            shadow().soft("C16", "reactivate-nonsole-changed", det);
+                            // (documented: the participant stays pinned, so this also lets the clock run
+                            // arbitrarily far past the epoch the outer guard pinned in: C14)
+                            shadow().soft("C16,C14", "reactivate-nonsole-changed", det);
                         }
                         sim().probe("reactivate_nonsole");
                     }
